@@ -42,7 +42,8 @@ Inductive rule :=
 | R_leaf_shape         (* 5.3.3 leaf field selections *)
 | R_arg_known          (* 5.4.1 argument names (fields and directives) *)
 | R_arg_unique         (* 5.4.2 argument uniqueness *)
-| R_arg_required       (* 5.4.2.1 required arguments *)
+| R_arg_required       (* 5.4.2.1 required arguments of fields *)
+| R_dir_arg_required   (* 5.4.2.1 required arguments of directives *)
 | R_value              (* 5.6.1-5.6.4 values of correct type, input object field names / uniqueness / required fields, oneOf *)
 | R_var_position       (* 5.8.5 all variable usages are allowed *)
 | R_frag_known         (* 5.5.2.1 fragment spread target defined *)
@@ -53,14 +54,15 @@ Inductive rule :=
 | R_merge              (* 5.3.2 field selection merging *)
 | R_var_unique         (* 5.8.1 variable uniqueness *)
 | R_var_input_type     (* 5.8.2 variables are input types *)
-| R_var_default        (* default values are constant and of the variable's type *)
+| R_var_default_const  (* default values are constant (the grammar's Value[Const]) *)
+| R_var_default_value  (* 5.6.1 default values are of the variable's type *)
 | R_var_defined        (* 5.8.3 all variable uses defined *)
 | R_var_used           (* 5.8.4 all variables used *)
 | R_dir_known          (* 5.7.1 directives are defined *)
 | R_dir_location       (* 5.7.2 directives are in valid locations *)
 | R_dir_unique         (* 5.7.3 directives are unique per location *)
-| R_subscription       (* 5.2.3.1 single root field, not an introspection field *)
-| R_subscription_skip. (* 2025 edition: no @skip/@include on root selections of a subscription *)
+| R_subscription_single          (* 5.2.3.1 single root field *)
+| R_subscription_introspection.  (* 5.2.3.1 ... which is not an introspection field *)
 
 (* ---- small list helpers ---- *)
 Fixpoint nodup_names (l : list name) : bool :=
@@ -533,24 +535,6 @@ Section Spec.
   End Merge.
 
   (* ---- subscription root ---- *)
-  Definition is_skip_include (d : directive) : bool :=
-    bytes_eqb (d_name d) s_skip || bytes_eqb (d_name d) s_include.
-  (* directives sitting on the root-level selections (through fragments) *)
-  Fixpoint root_dirs (fuel : nat) (sels : list selection) {struct fuel} : list directive :=
-    match sels with
-    | [] => []
-    | s :: rest =>
-      match fuel with
-      | O => []
-      | Datatypes.S f =>
-        (sel_dirs s ++
-         match s with
-         | SField _ _ _ _ _ => []
-         | SInline _ _ sub => root_dirs f sub
-         | SSpread n _ => match find_frag n frags with Some fr => root_dirs f (fr_sels fr) | None => [] end
-         end) ++ root_dirs f rest
-      end
-    end.
   Definition starts_with_uu (n : name) : bool :=
     match n with 95 :: 95 :: _ => true | _ => false end.
 End Spec.
@@ -598,8 +582,9 @@ Section Checks.
     map (fun vd => (loc_VARIABLE_DEFINITION, vd_dirs vd)) vs ++
     map (fun f => (loc_FRAGMENT_DEFINITION, fr_dirs f)) rdefs ++
     map (fun s => (sel_loc s, sel_dirs s)) all_unodes.
-  Definition all_argsites : list argsite :=
-    flat_map (node_argsite S) all_nodes ++ flat_map (dirsite_argsites S) all_dirsites.
+  Definition field_argsites : list argsite := flat_map (node_argsite S) all_nodes.
+  Definition dir_argsites : list argsite := flat_map (dirsite_argsites S) all_dirsites.
+  Definition all_argsites : list argsite := field_argsites ++ dir_argsites.
   Definition used_vars : list name :=
     dirs_vars (op_dirs o) ++ flat_map (fun f => dirs_vars (fr_dirs f)) rdefs ++
     flat_map (fun s => args_vars (sel_args s) ++ dirs_vars (sel_dirs s)) all_unodes.
@@ -611,7 +596,8 @@ Section Checks.
       (R_leaf_shape, forallb (node_leaf_shape S) all_nodes);
       (R_arg_known, forallb args_known all_argsites);
       (R_arg_unique, forallb args_unique all_argsites);
-      (R_arg_required, forallb args_required all_argsites);
+      (R_arg_required, forallb args_required field_argsites);
+      (R_dir_arg_required, forallb args_required dir_argsites);
       (R_value, forallb (args_values S vs false) all_argsites);
       (R_var_position, forallb (args_values S vs true) all_argsites);
       (R_frag_known, forallb (fun n => is_some (find_frag n fr)) (cx_reached c) &&
@@ -627,27 +613,35 @@ Section Checks.
                 end);
       (R_var_unique, nodup_names (map vd_name vs));
       (R_var_input_type, forallb (fun vd => is_input S (named_of (vd_type vd))) vs);
-      (R_var_default, forallb (fun vd => match vd_default vd with
-                                         | Some dv => is_nil (value_vars dv) && value_ok S [] false dv (vd_type vd) false
-                                         | None => true
-                                         end) vs);
+      (R_var_default_const, forallb (fun vd => match vd_default vd with
+                                               | Some dv => is_nil (value_vars dv)
+                                               | None => true
+                                               end) vs);
+      (R_var_default_value, forallb (fun vd => match vd_default vd with
+                                               | Some dv => value_ok S [] false dv (vd_type vd) false
+                                               | None => true
+                                               end) vs);
       (R_var_defined, forallb (fun n => is_some (find_var n vs)) used_vars);
       (R_var_used, forallb (fun vd => mem_bytes (vd_name vd) used_vars) vs);
       (R_dir_known, forallb (dirs_known S) all_dirsites);
       (R_dir_location, forallb (dirs_location S) all_dirsites);
       (R_dir_unique, forallb (dirs_unique S) all_dirsites);
-      (R_subscription,
+      (R_subscription_single,
        match op_kind o with
        | OpSubscription =>
          match root_fields with
-         | Some (x :: l) => forallb (same_key x) l && negb (starts_with_uu (sel_fname (snd x)))
+         | Some (x :: l) => forallb (same_key x) l
          | _ => false
          end
        | _ => true
        end);
-      (R_subscription_skip,
+      (R_subscription_introspection,
        match op_kind o with
-       | OpSubscription => negb (existsb is_skip_include (root_dirs fr (cx_fuel c) (op_sels o)))
+       | OpSubscription =>
+         match root_fields with
+         | Some l => negb (existsb (fun x => starts_with_uu (sel_fname (snd x))) l)
+         | None => true
+         end
        | _ => true
        end) ].
 End Checks.
@@ -662,3 +656,59 @@ Definition spec_valid_b (S : schema) (d : document) (opname : option name) : boo
   | None => false
   | Some c => forallb snd (checks S c)
   end.
+
+(* ---- side conditions of the execution-safety theorem ----
+   Validation presupposes a valid schema (spec section 3).  [schema_wf_b] is the part of schema
+   validity execution safety depends on: implementing types have the fields of their interfaces
+   with covariant (sub)types and list the interfaces transitively, only object and interface types
+   implement, union members are object types, and no type is called _Entity (the reference
+   executor treats that name as "any entity").  [universe_wf_b]: every entity of the data universe
+   has an object type of the schema and every root type has its root entity. *)
+Definition subtype_b (S : schema) (n n' : name) : bool :=
+  bytes_eqb n n' ||
+  match find_type n' (s_types S), find_type n (s_types S) with
+  | Some t', Some t =>
+    match td_kind t' with
+    | KInterface => mem_bytes n' (td_implements t)
+    | KUnion => mem_bytes n (td_members t')
+    | _ => false
+    end
+  | _, _ => false
+  end.
+Definition implements_ok (S : schema) (t : type_def) : bool :=
+  forallb (fun i =>
+    match find_type i (s_types S) with
+    | Some ti =>
+      match td_kind ti with
+      | KInterface =>
+        forallb (fun f => match find_field (fd_name f) (td_fields t) with
+                          | Some g => subtype_b S (named_of (fd_type g)) (named_of (fd_type f))
+                          | None => false
+                          end) (td_fields ti) &&
+        forallb (fun i' => mem_bytes i' (td_implements t)) (td_implements ti)
+      | _ => false
+      end
+    | None => false
+    end) (td_implements t).
+Definition type_wf (S : schema) (t : type_def) : bool :=
+  match td_kind t with
+  | KObject | KInterface => implements_ok S t
+  | KUnion =>
+    is_nil (td_implements t) &&
+    forallb (fun m => match find_type m (s_types S) with
+                      | Some tm => match td_kind tm with KObject => true | _ => false end
+                      | None => false
+                      end) (td_members t)
+  | _ => is_nil (td_implements t)
+  end.
+Definition schema_wf_b (S : schema) : bool :=
+  forallb (type_wf S) (s_types S) && negb (is_some (find_type n_Entity (s_types S))).
+Definition schema_roots (S : schema) : list name :=
+  s_query S :: match s_mutation S with Some m => [m] | None => [] end ++
+  match s_subscription S with Some m => [m] | None => [] end.
+Definition universe_wf_b (S : schema) (U : universe) : bool :=
+  forallb (fun e => match find_type (en_type e) (s_types S) with
+                    | Some t => match td_kind t with KObject => true | _ => false end
+                    | None => false
+                    end) U &&
+  forallb (fun rt => is_some (find_entity U rt [])) (schema_roots S).
